@@ -238,7 +238,7 @@ func parmapWorld(r *R) {
 		srcErrAt = src.ErrAt
 	}
 	pulled := 0
-	root := NewCtx(nil, "root")
+	root := RootCtx(r)
 	ctorCtx := root
 	ctorKind := r.Choose(6, "ctorctx")
 	if ctorKind == 5 {
